@@ -11,13 +11,13 @@ NOTE_COMMON = ("Trusted: go/types and go/ssa (x/tools v0.50.0) construction for 
 
 claimed = {
  "C01": dict(category="other",
-   text="Decides structural necessary conditions of root equality with the bridge contract: the leaf hash's byte layout, extracted symbolically from the SSA, equals the contract's getLeafValue encoding; append/rebuild orientation, level indexing, node hash and zero-hash recurrence follow the contract's convention; every Bridge event feeds the leaf {DepositCount, Hash()} of that same event before its row is stored; downloader field map; frontier sentinel / writer / rebuild discipline. Functional equality of the frontier algorithm with the contract's for every index is an induction over indices and is not decided.",
+   text="Decides structural necessary conditions of root equality with the bridge contract: the leaf hash's byte layout, extracted symbolically from the SSA, equals the contract's getLeafValue encoding; append/rebuild orientation, level indexing, node hash and zero-hash recurrence follow the contract's convention; every Bridge event feeds the leaf {DepositCount, Hash()} of that same event before its row is stored; downloader field map; frontier sentinel / writer / rebuild discipline. Functional equality of the frontier algorithm with the contract's for every index is an induction over indices and is not decided. Also: the fields of Bridge / Claim events are written only while the downloader builds them (no 'normalisation' between download and leaf hash).",
    ref="4 C01", technique="static analysis: symbolic byte-layout extraction vs contract spec term, Merkle-step orientation rule, provenance and dominance on SSA"),
  "C02": dict(category="other",
-   text="Decides the local gates and derivations that the gap-free certificate chain rests on, on every path of the code: send only behind a fresh !ExistPendingCerts; the status check fails closed on every error and for every certificate still open after refresh (boolean accumulator tracked path-sensitively); a single submission site; every producing return of the next-height/previous-LER and last-block/retry functions matched with its dominating branch facts against the case table; build-parameter provenance; retry keeps its first block and passes VerifyBuildParams; stored header fields. The global exactly-once-over-all-schedules statement is a protocol property over interleavings of five actors and is not decided, hence level 'other'.",
+   text="Decides the local gates and derivations that the gap-free certificate chain rests on, on every path of the code: send only behind a fresh !ExistPendingCerts; the status check fails closed on every error and for every certificate still open after refresh (boolean accumulator tracked path-sensitively); a single submission site; every producing return of the next-height/previous-LER and last-block/retry functions matched with its dominating branch facts against the case table; build-parameter provenance; retry keeps its first block and passes VerifyBuildParams; stored header fields. The global exactly-once-over-all-schedules statement is a protocol property over interleavings of five actors and is not decided, hence level 'other'. Shared rules: the record rebuilt from an Agglayer header keeps the real block range (C13-recover), a cut copies every parameter incl. RetryCount (C17-filter), the new local exit root follows from the range's exits (C03-newler).",
    ref="4 C02", technique="static analysis: SSA dominance with boolean/nil path facts, guarded-return case matching, provenance, who-may-call"),
  "C03": dict(category="other",
-   text="Decides structural necessary conditions: the Agglayer-side exit leaf layout composed with the node's field map and metadata hashing equals the node's own leaf layout (sibling agreement); conversions are order-preserving over an ordered, bounded range query; new LER by highest deposit count (last bridge) or previous LER; certificate literal provenance; metadata arguments and codec slot agreement. Root values and range choice are not decided here.",
+   text="Decides structural necessary conditions: the Agglayer-side exit leaf layout composed with the node's field map and metadata hashing equals the node's own leaf layout (sibling agreement); conversions are order-preserving over an ordered, bounded range query; new LER by highest deposit count (last bridge) or previous LER; certificate literal provenance; metadata arguments and codec slot agreement. Root values and range choice are not decided here. Shared rules: previous LER derivation (C02-next), cut/clamp keep exactly the events of the range (C17), querier/flow objects keep no chain data between calls (C09).",
    ref="4 C03", technique="static analysis: symbolic byte-layout extraction, field-map provenance, SQL token checks"),
  "C04": dict(category="other",
    text="Decides structural necessary conditions of reorg cleanliness: the schema of each store is computed from the embedded migrations and every synced table cascades from block(num); the single sql.Open enables foreign keys; every Reorg binds the block deletion and the rewind of every tree-typed field to the same tx and block number on every committing path; Reorg is atomic; the in-memory frontier is rewritten from the database on every successful rebuild. Observational equivalence of all queries for all histories is value-level and not decided; SQLite's cascade semantics are trusted.",
@@ -59,7 +59,7 @@ claimed.update({
    text="Decides structural necessary conditions of mirroring the L1 contracts: topic constants are the ABI signatures (from the contract bindings) of the events their handlers parse; handler and ProcessBlock field maps; hash/GER layouts against the contract; index = initial + counter with +1 only after a successful append; announced-root / leaf-count mismatch latches the halt; rollup exit tree updated with {RollupID-1, ExitRoot} only for a non-zero changed root and the returned root recorded; UNIQUE GER and bound lookups; first/last accessors order by chain position. Value equality with the contracts for all histories is not decided.",
    ref="4 C11", technique="static analysis: ABI cross-check, field-map provenance, layout extraction, dominance, DDL reader"),
  "C12": dict(category="other",
-   text="Decides the proof-assembly half structurally: one info leaf by leaf_index; L1 branch proves against its MainnetExitRoot; L2 branch proves against the local exit root looked up under its RollupExitRoot; rollup proof for (network, RollupExitRoot); response carries those and the same leaf; every lookup error ends the handler before the 200 answer. The two binary searches (monotonicity + midpoint arithmetic over runtime data) are declined.",
+   text="Decides the proof-assembly half structurally: one info leaf by leaf_index; L1 branch proves against its MainnetExitRoot; L2 branch proves against the local exit root looked up under its RollupExitRoot; rollup proof for (network, RollupExitRoot); response carries those and the same leaf; every lookup error ends the handler before the 200 answer. Safety of the two index searches is decided: every record that can become the answer was compared (root.Index >= depositCount for the root of its own exit root) on the path that selects it, the root facade hands out only the store's answer, tree node storage/lookup rules shared with C08. Minimality of the answer (binary-search arithmetic) is not part of the property and not checked.",
    ref="4 C12", technique="static analysis: value provenance with bound SSA values, dominance"),
  "C15": dict(category="other",
    text="Decides structural necessary conditions: the single InjectGER call is reachable only after IsGERInjected of the same value returned (false, nil); that value is GetLatestInfoUntilBlock(sampled finalized block).GlobalExitRoot of a successful query; finality sampled with the configured block tag whose only writer is the constructor; success returns retry target 0 (next tick samples again) and the target is stored only on the success edge or for ErrBlockNotProcessed; the store's 'latest info until block n' is the last leaf in chain order with block_num <= n, bound to n, asked only once block n was processed. Liveness under arbitrary relative speeds is not decided.",
